@@ -40,8 +40,10 @@ class Spec:
         return s
 
 
-def run(spec, seed, attack=None):
-    """attack(sim, out, rng) installs hooks (sim.net.on_tx / scheduled injections) before the session starts."""
+def run(spec, seed, attack=None, flood=None):
+    """attack(sim, out, rng) installs hooks (sim.net.on_tx / scheduled injections) before the session starts.
+    flood = dict(vport, version, n, size): a further, perfectly valid peer connects, makes its handler busy with one slow
+    request and then sends n messages that nobody reads (a hostile peer needs no malformed traffic)."""
     rng = random.Random(seed)
     arng = random.Random(seed ^ 0x5A5A5A5A)      # the attacker's PRNG: the victims' script must not depend on it
     out = ps.Session()
@@ -54,6 +56,8 @@ def run(spec, seed, attack=None):
     out.errors = []
     out.client_addr = {}
     out.connect_errors = {}
+    out.flood_addr = None
+    out.flood_sent = 0
     with Sim(seed) as sim:
         sim.install_factories()
         log = sim.net.log
@@ -89,6 +93,10 @@ def run(spec, seed, attack=None):
                 try:
                     while True:
                         d = await client.recv()
+                        if d.startswith(b"FLOOD"):
+                            # a slow request: this handler is busy and reads nothing more
+                            await anyio.sleep(quant(1000.0))
+                            return
                         log.append(("deliver", sim.now(), "s", (vport,) + tuple(client.remote_address()), d))
                         out.srv_got.setdefault(key, []).append(d)
                         reply = b"echo:%d:" % vport + d
@@ -121,6 +129,26 @@ def run(spec, seed, attack=None):
             except BaseException as e:
                 out.connect_errors[i] = repr(e)[:200]
 
+        async def flooder():
+            s = spec.settings(flood["version"])
+            creds = None
+            if spec.key:
+                creds, _ = ps.make_credentials(s, random.Random(seed * 31 + 99), s["kerberos.key_size"], pid=6666, server_key=spec.key)
+            await anyio.sleep(quant(flood.get("start", 0.3)))
+            try:
+                async with prudp.connect(s, SERVER[0], SERVER[1], flood["vport"], credentials=creds) as client:
+                    out.flood_addr = client.local_address()
+                    await client.send(b"FLOOD:slow request")
+                    for j in range(flood["n"]):
+                        await client.send(b"FLOOD:%d:" % j + b"x" * flood.get("size", 4))
+                        out.flood_sent += 1
+                        if j % 16 == 15:
+                            await anyio.sleep(quant(0.002))
+                    await anyio.sleep(quant(1000.0))
+            except BaseException as e:
+                out.flood_error = repr(e)[:200]
+                raise
+
         async def main():
             async with prudp.serve_transport(ss, SERVER[0], SERVER[1]) as transport:
                 out.transport = transport
@@ -142,6 +170,8 @@ def run(spec, seed, attack=None):
                                 await anyio.sleep(quant(0.1))
                                 out.tables.append((sim.now(), {vp: len(st.clients) for vp, st in streams.items()}))
                         tg.start_soon(watcher)
+                        if flood:
+                            tg.start_soon(flooder)
                         await anyio.sleep(quant(spec.rounds * 0.6 + 2.0))
                         tg.cancel_scope.cancel()
                     await anyio.sleep(quant(spec.resend_timeout * (spec.resend_limit + 2) + 0.5))
@@ -172,10 +202,11 @@ def victim_view(sess):
     """what the genuine parties observed: per endpoint address the datagrams it emitted, what clients received, what
     the server's handlers received per (vport, peer)"""
     tx = {}
+    hostile = {ATTACKER, getattr(sess, "flood_addr", None)}
     for e in sess.netlog:
-        if e[0] == "tx" and e[3] != ATTACKER:
+        if e[0] == "tx" and e[3] not in hostile:
             tx.setdefault(e[3], []).append((ticks(e[2]), e[4], e[5]))
-        elif e[0] == "stx" and e[2] != ATTACKER:
+        elif e[0] == "stx" and e[2] not in hostile:
             tx.setdefault(e[2], []).append((ticks(e[1]), e[3], e[4]))
     return {"tx": tx, "got": {k: list(v) for k, v in sess.got.items()},
             "srv_got": {repr(k): list(v) for k, v in sess.srv_got.items()},
